@@ -23,6 +23,25 @@ pub type Key = u8;
 #[derive(Debug)]
 pub struct JobMsg {
     pub id: u32,
+    /// tells the log when (and thereby in whose hands) the job ceased to exist
+    pub guard: DropGuard,
+}
+
+pub struct DropGuard {
+    id: u32,
+    world: World,
+}
+impl std::fmt::Debug for DropGuard {
+    fn fmt(&self, f: &mut std::fmt::Formatter<'_>) -> std::fmt::Result {
+        write!(f, "guard({})", self.id)
+    }
+}
+impl Drop for DropGuard {
+    fn drop(&mut self) {
+        if !std::thread::panicking() {
+            self.world.log(Ev::Dropped { id: self.id });
+        }
+    }
 }
 
 #[derive(Debug, Clone, PartialEq, Eq)]
@@ -39,6 +58,10 @@ pub enum Ev {
     End { wid: usize, inc: u32, key: Key, id: u32, how: How },
     Discard { reason: String, id: u32 },
     Completed { id: u32 },
+    /// an armed kill (see `Discards`) has taken full effect: the worker is Stopped
+    WorkerGone { wid: usize },
+    /// the job object was dropped (after it ran, with a dead worker's mailbox, with the factory's state, ...)
+    Dropped { id: u32 },
     Hook(&'static str),
     Stat(&'static str),
     /// history events, as issued by the script
@@ -56,6 +79,8 @@ pub struct WorldInner {
 pub struct World {
     pub inner: Arc<Mutex<WorldInner>>,
     pub gates: Arc<Mutex<BTreeMap<usize, Arc<tokio::sync::Notify>>>>,
+    /// a worker to kill from inside the next discard callback
+    pub armed: Arc<Mutex<Option<(usize, ActorCell)>>>,
 }
 
 impl World {
@@ -143,6 +168,19 @@ struct Discards(World);
 impl DiscardHandler<Key, JobMsg> for Discards {
     fn discard(&self, reason: DiscardReason, job: &mut Job<Key, JobMsg>) {
         self.0.log(Ev::Discard { reason: format!("{reason:?}"), id: job.msg.id });
+        // armed by the script: the worker dies right now, i.e. while the factory is in the middle of the
+        // handler that discards this job (and before it dispatches the next one)
+        let armed = self.0.armed.lock().unwrap().take();
+        if let Some((wid, cell)) = armed {
+            cell.kill();
+            for _ in 0..500 {
+                if cell.get_status() == ActorStatus::Stopped {
+                    break;
+                }
+                vsched::yield_sync();
+            }
+            self.0.log(Ev::WorkerGone { wid });
+        }
     }
 }
 
@@ -265,6 +303,12 @@ pub struct Cfg {
     pub set_limit: bool,
     /// only dispatches (three keys) and completions: longer histories of plain job flow
     pub flow_only: bool,
+    /// a small alphabet around "a worker dies right after it reported completion" (dispatch of one key,
+    /// completion, kill-after-finished, drain), explored with decision points inside the factory's own
+    /// handlers (before every channel operation of every task)
+    pub fine_deaths: bool,
+    /// a fixed history (tokens as in FACTORY_HISTORY) instead of the enumeration
+    pub script: Option<&'static str>,
 }
 
 impl Cfg {
@@ -279,7 +323,7 @@ impl Cfg {
             (true, false) => "/lean",
             _ => "",
         };
-        format!("{:?}/{:?}/w{}/d{}{}{mode}{q}{}{}", self.routing, self.discard, self.workers, self.depth, if self.ttl { "/ttl" } else { "" }, if self.set_limit { "/setlimit" } else { "" }, if self.flow_only { "/flow3keys" } else { "" }).replace(['(', ')'], "")
+        format!("{:?}/{:?}/w{}/d{}{}{mode}{q}{}{}", self.routing, self.discard, self.workers, self.depth, if self.ttl { "/ttl" } else { "" }, if self.set_limit { "/setlimit" } else { "" }, if self.flow_only { "/flow3keys".to_string() } else if self.fine_deaths { "/fine-deaths".to_string() } else if let Some(s) = self.script { format!("/script-{}", s.replace(',', "-")) } else { String::new() }).replace(['(', ')'], "")
     }
     pub fn factory_queueing(&self) -> bool {
         matches!(self.routing, Routing::Sticky | Routing::Queuer | Routing::RlQueuer)
@@ -370,6 +414,8 @@ pub enum Event {
     Advance,
     /// UpdateSettings: a new static discard limit (same mode)
     SetLimit(usize),
+    /// the next discard callback kills worker `w` and waits until it is gone (inside the factory's handler)
+    ArmKillOnDiscard(usize),
     /// marker: the next event was issued right behind the previous one (no settling in between)
     NoSettle,
 }
@@ -472,13 +518,25 @@ pub async fn run(cfg: Cfg) -> Run {
         if cfg.flow_only {
             en.push(Event::Dispatch(2));
         }
+        if cfg.fine_deaths {
+            en = vec![Event::Dispatch(0)];
+            for w in 0..2usize {
+                if prog.iter().any(|p| p.0 == w) {
+                    en.push(Event::Complete(w));
+                    en.push(Event::KillAfterFinished(w));
+                }
+            }
+            if !drained {
+                en.push(Event::Drain);
+            }
+        }
         for w in 0..3usize {
             if !no_wait && prog.iter().any(|p| p.0 == w) {
                 en.push(Event::Complete(w));
             }
         }
         for w in 0..3usize {
-            if no_wait || cfg.flow_only {
+            if no_wait || cfg.flow_only || cfg.fine_deaths {
                 break; // right behind the previous event only requests to the factory are issued
             }
             if prog.iter().any(|p| p.0 == w) {
@@ -495,11 +553,11 @@ pub async fn run(cfg: Cfg) -> Run {
             }
         }
         for n in 1..=3usize {
-            if n != requested && !cfg.flow_only {
+            if n != requested && !cfg.flow_only && !cfg.fine_deaths {
                 en.push(Event::Resize(n));
             }
         }
-        if !drained && !cfg.flow_only {
+        if !drained && !cfg.flow_only && !cfg.fine_deaths {
             en.push(Event::Drain);
         }
         if cfg.set_limit {
@@ -513,7 +571,7 @@ pub async fn run(cfg: Cfg) -> Run {
             en.push(Event::Advance);
         }
         // debugging aid: FACTORY_HISTORY="D0,D0,KF0,D0" pins the history
-        let pinned = std::env::var("FACTORY_HISTORY").ok().and_then(|h| {
+        let pinned = std::env::var("FACTORY_HISTORY").ok().or(cfg.script.map(|s| s.to_string())).and_then(|h| {
             h.split(',').nth(step).map(|t| match t {
                 "D0" => Event::Dispatch(0),
                 "D1" => Event::Dispatch(1),
@@ -529,6 +587,9 @@ pub async fn run(cfg: Cfg) -> Run {
                 "R2" => Event::Resize(2),
                 "R3" => Event::Resize(3),
                 "DR" => Event::Drain,
+                "A" => Event::Advance,
+                "ARM0" => Event::ArmKillOnDiscard(0),
+                "ARM1" => Event::ArmKillOnDiscard(1),
                 "L0" => Event::SetLimit(0),
                 "L2" => Event::SetLimit(2),
                 _ => Event::Advance,
@@ -552,7 +613,7 @@ pub async fn run(cfg: Cfg) -> Run {
                 // first key gets a really short one
                 let short = cfg.ttl && key == 0;
                 let ttl = if short { Duration::from_micros(100_000 + id as u64) } else { Duration::from_millis(TTL_BASE_MS + id as u64) };
-                let job = Job { key, msg: JobMsg { id }, options: JobOptions::new(Some(ttl)), accepted: Some(tx.into()) };
+                let job = Job { key, msg: JobMsg { id, guard: DropGuard { id, world: world.clone() } }, options: JobOptions::new(Some(ttl)), accepted: Some(tx.into()) };
                 let lc = vsched::stamp();
                 let r = f.cast(FactoryMessage::Dispatch(job));
                 jobs.push(Submitted { id, key, lc, rx, accepted: None, port_closed: false, send_failed: r.is_err(), after_drain: drained, short_ttl: short });
@@ -607,6 +668,12 @@ pub async fn run(cfg: Cfg) -> Run {
                 let _ = f.cast(FactoryMessage::DrainRequests);
             }
             Event::Advance => vsched::sleep(Duration::from_millis(150)).await,
+            Event::ArmKillOnDiscard(w) => {
+                if let Some(c) = current_cell(w, &world, &f) {
+                    deaths += 1;
+                    *world.armed.lock().unwrap() = Some((w, c));
+                }
+            }
             Event::NoSettle => unreachable!(),
         }
         let _ = &limits;
@@ -750,7 +817,7 @@ pub fn plan(property: &'static str, tier: &str) -> Plan {
                 (true, true) => 6,
                 (true, false) => 5,
             };
-            cfgs.push((Cfg { routing: r, discard: *d, workers: 2, depth, ttl: false, lean: false, burst: false, queue: QueueKind::Default, set_limit: false, flow_only: false }, if raced || (thorough && main4) { 1 } else { 0 }));
+            cfgs.push((Cfg { routing: r, discard: *d, workers: 2, depth, ttl: false, lean: false, burst: false, queue: QueueKind::Default, set_limit: false, flow_only: false, fine_deaths: false, script: None }, if raced || (thorough && main4) { 1 } else { 0 }));
         }
     }
     // deeper histories over the reduced alphabet (one kind of death, no kill), default schedule: multi-step
@@ -764,15 +831,15 @@ pub fn plan(property: &'static str, tier: &str) -> Plan {
                 continue;
             }
         }
-        cfgs.push((Cfg { routing: r, discard: Discard::None, workers: 2, depth: if thorough { 7 } else { 5 }, ttl: false, lean: true, burst: false, queue: QueueKind::Default, set_limit: false, flow_only: false }, 0));
+        cfgs.push((Cfg { routing: r, discard: Discard::None, workers: 2, depth: if thorough { 7 } else { 5 }, ttl: false, lean: true, burst: false, queue: QueueKind::Default, set_limit: false, flow_only: false, fine_deaths: false, script: None }, 0));
     }
     // bursts: requests that sit in the factory's mailbox together (a resize right behind a resize, a
     // dispatch right behind a drain request, ...), so the factory handles the second before the workers
     // reacted to the first
     for r in [Routing::Queuer, Routing::KeyPersistent, Routing::Sticky, Routing::RoundRobin] {
-        cfgs.push((Cfg { routing: r, discard: Discard::None, workers: 2, depth: if thorough { 5 } else { 4 }, ttl: false, lean: true, burst: true, queue: QueueKind::Default, set_limit: false, flow_only: false }, 0));
+        cfgs.push((Cfg { routing: r, discard: Discard::None, workers: 2, depth: if thorough { 5 } else { 4 }, ttl: false, lean: true, burst: true, queue: QueueKind::Default, set_limit: false, flow_only: false, fine_deaths: false, script: None }, 0));
         if property == "C15" {
-            cfgs.push((Cfg { routing: r, discard: Discard::Newest(1), workers: 2, depth: if thorough { 4 } else { 3 }, ttl: false, lean: true, burst: true, queue: QueueKind::Default, set_limit: false, flow_only: false }, 0));
+            cfgs.push((Cfg { routing: r, discard: Discard::Newest(1), workers: 2, depth: if thorough { 4 } else { 3 }, ttl: false, lean: true, burst: true, queue: QueueKind::Default, set_limit: false, flow_only: false, fine_deaths: false, script: None }, 0));
         }
     }
     // the priority queue (factory-queued routing only: worker queues are plain FIFOs): urgent key b
@@ -782,7 +849,7 @@ pub fn plan(property: &'static str, tier: &str) -> Plan {
             if property != "C15" && d != Discard::None && !thorough {
                 continue;
             }
-            cfgs.push((Cfg { routing: r, discard: d, workers: 1, depth: if thorough { 6 } else { 4 }, ttl: false, lean: true, burst: false, queue: q, set_limit: false, flow_only: false }, 0));
+            cfgs.push((Cfg { routing: r, discard: d, workers: 1, depth: if thorough { 6 } else { 4 }, ttl: false, lean: true, burst: false, queue: q, set_limit: false, flow_only: false, fine_deaths: false, script: None }, 0));
         }
     }
     // plain job flow with three keys, longer: several same-key jobs waiting while every worker is busy
@@ -790,27 +857,47 @@ pub fn plan(property: &'static str, tier: &str) -> Plan {
         if !thorough && !(matches!(r, Routing::Sticky | Routing::KeyPersistent) || property == "C13") {
             continue;
         }
-        cfgs.push((Cfg { routing: r, discard: Discard::None, workers: 2, depth: if thorough { 8 } else { 6 }, ttl: false, lean: true, burst: false, queue: QueueKind::Default, set_limit: false, flow_only: true }, 0));
+        cfgs.push((Cfg { routing: r, discard: Discard::None, workers: 2, depth: if thorough { 8 } else { 6 }, ttl: false, lean: true, burst: false, queue: QueueKind::Default, set_limit: false, flow_only: true, fine_deaths: false, script: None }, 0));
     }
     // a leaky-bucket rate limiter in front of the router; the history may let 150 ms pass (refill to the cap)
     for r in [Routing::RlQueuer, Routing::RlKeyPersistent] {
-        cfgs.push((Cfg { routing: r, discard: Discard::None, workers: 2, depth: if thorough { 7 } else { 5 }, ttl: false, lean: true, burst: false, queue: QueueKind::Default, set_limit: false, flow_only: false }, 0));
+        cfgs.push((Cfg { routing: r, discard: Discard::None, workers: 2, depth: if thorough { 7 } else { 5 }, ttl: false, lean: true, burst: false, queue: QueueKind::Default, set_limit: false, flow_only: false, fine_deaths: false, script: None }, 0));
+    }
+    // a worker dies right after it reported completion, at the granularity of the factory's own channel
+    // operations (worker-queued routing: the next job of its queue is dispatched while it is going down)
+    if property != "C14" || thorough {
+        for r in [Routing::KeyPersistent, Routing::RoundRobin] {
+            cfgs.push((Cfg { routing: r, discard: Discard::None, workers: 1, depth: 4, ttl: false, lean: true, burst: false, queue: QueueKind::Default, set_limit: false, flow_only: false, fine_deaths: true, script: None }, if thorough { 3 } else { 2 }));
+        }
+    }
+    // scripted histories: a worker is killed from inside the factory's own handler (in the callback that
+    // discards an expired job, before the next job of that worker's queue is dispatched); schedules explored
+    for r in [Routing::KeyPersistent, Routing::RoundRobin] {
+        for script in ["D1,D0,D1,A,ARM0,C0", "D1,D0,D1,A,DR,ARM0,C0", "D1,D0,D1,D1,A,ARM0,C0,C0"] {
+            cfgs.push((
+                Cfg { routing: r, discard: Discard::None, workers: 1, depth: script.split(',').count(), ttl: true, lean: true, burst: false, queue: QueueKind::Default, set_limit: false, flow_only: false, fine_deaths: false, script: Some(script) },
+                if thorough { 2 } else { 1 },
+            ));
+        }
     }
     // the discard limit changes under way (UpdateSettings)
     if property == "C15" || thorough {
         for r in [Routing::Queuer, Routing::KeyPersistent] {
             for d in [Discard::Newest(1), Discard::Oldest(1)] {
-                cfgs.push((Cfg { routing: r, discard: d, workers: 1, depth: if thorough { 6 } else { 5 }, ttl: false, lean: true, burst: false, queue: QueueKind::Default, set_limit: true, flow_only: false }, 0));
+                cfgs.push((Cfg { routing: r, discard: d, workers: 1, depth: if thorough { 6 } else { 5 }, ttl: false, lean: true, burst: false, queue: QueueKind::Default, set_limit: true, flow_only: false, fine_deaths: false, script: None }, 0));
             }
         }
     }
     // TTL expiry with time advancing
     for r in [Routing::Queuer, Routing::KeyPersistent] {
-        cfgs.push((Cfg { routing: r, discard: Discard::None, workers: 1, depth: if thorough { 5 } else { 4 }, ttl: true, lean: false, burst: false, queue: QueueKind::Default, set_limit: false, flow_only: false }, 0));
+        cfgs.push((Cfg { routing: r, discard: Discard::None, workers: 1, depth: if thorough { 5 } else { 4 }, ttl: true, lean: false, burst: false, queue: QueueKind::Default, set_limit: false, flow_only: false, fine_deaths: false, script: None }, 0));
     }
     let mut units = Vec::new();
     for (cfg, bound) in cfgs {
-        let ecfg = ExecCfg { stack: 1 << 19, max_steps: 60_000, ..Default::default() };
+        let mut ecfg = ExecCfg { stack: 1 << 19, max_steps: 60_000, ..Default::default() };
+        if cfg.fine_deaths {
+            ecfg.filter = Some(Arc::new(|k, _l, _t| k == vsched::PointKind::Channel));
+        }
         let split = if bound >= 1 && !cfg.lean { 64 } else if cfg.depth >= 4 { 16 } else { 2 };
         units.push(Unit::explore_split(XJob::new(format!("{}/{}", property.to_lowercase(), cfg.name()), ecfg, Some(if thorough && !cfg.lean { bound.max(1) } else { bound }), body(cfg, property)), split));
     }
